@@ -69,6 +69,7 @@ def run(F, rep, tier):
 def open_purity_is_not_copied(F, rep, where):
     fexpr = F.fn(TC + "expression")
     ok = False
+    shallow = False
     n = 0
     for arm, alt in tc.arm_of(F, fexpr, E, "BlobAccess"):
         for m in nodes(arm["body"], "Match"):
@@ -83,10 +84,25 @@ def open_purity_is_not_copied(F, rep, where):
             for a in m["arms"][:idx]:
                 txt = pp_pat(a["pat"])
                 b = peel(a["body"])
-                if "Type::Function" in txt and "Purity::Undefined" in txt and b.get("k") == "Path" and b.get("res") == "Local" and not a.get("guard"):
-                    ok = True
+                if not ("Type::Function" in txt and b.get("k") == "Path" and b.get("res") == "Local"):
+                    continue
+                # the test has to see an open purity *anywhere* in the function type (its parameters and result too - `get: pu ->
+                # fn int -> int`): a guard that calls a function of the checker which walks the type (a loop) looking for
+                # Purity::Undefined.  A pattern on the field's own purity alone leaves the nested ones to the copy.
+                g = a.get("guard")
+                if g is not None:
+                    for c in nodes(g, "MethodCall"):
+                        hf = F.fns.get(callee(c) or "")
+                        if hf is not None and "Purity::Undefined" in pp(fn_body(hf)) and \
+                                any(x.get("k") in ("While", "Loop", "ForLoop") for x in nodes(fn_body(hf))):
+                            ok = True
+                elif "Purity::Undefined" in txt:
+                    shallow = True
     rep.ob("PURITY-COPY", "expression|BlobAccess|open-purity-is-not-copied", ok and n > 0,
-           "a function read out of a blob field is instantiated afresh only once its purity is settled" if ok else
+           "a function read out of a blob field is instantiated afresh only once every purity in its type is settled" if ok else
+           "reading a function-typed field leaves it uncopied only while the field's *own* purity is open: a purity that is open further "
+           "in (`get: pu -> fn int -> int`, `run: pu (fn int -> int), int -> int`) is settled on the copy, and `h : pu int -> int : b.get()` "
+           "inside a pure function accepts an impure function" if shallow else
            "reading a function-typed field copies its type also while the purity is still open (`f: fn int -> int`): the copy is "
            "pinned to `pu` by a declaration (`h : pu int -> int : b.f`) while the field itself later accepts an impure function - a "
            "pure function calls an impure one through the field", where)
